@@ -5,22 +5,22 @@ HERE = os.path.dirname(os.path.dirname(os.path.abspath(__file__)))
 
 # id -> (level, technique, level text, level note, design ref)
 CHECKS = {
- "C01": ("exploration", "property-based testing (proptest) against a reference retrace model computed from the generated mapping AST (and from corpus files via an independent strict line recogniser); metamorphic renderings; complete enumerated by-line query universe incl. frame-file values; every mapper constructor; structured scale mappings crossing 256/4096/65536 thresholds",
+ "C01": ("exploration", "property-based testing (proptest) against a reference retrace model computed from the generated mapping AST (and from corpus files via an independent strict line recogniser); metamorphic renderings; complete enumerated by-line query universe incl. frame-file values; every mapper constructor; structured scale mappings crossing 256/4096/65536 thresholds; every way of consuming the result iterator (nth/skip/step_by/count/last/clone/size_hint) against next(); notation variants of known names as queries",
    "Generated-input search: every by-line query of the finite universe of each generated mapping, in three renderings, for mapper, mapper-with-params and cache, must equal the answer of a reference model written from the property statement. Exploration: holds on everything generated, no proof.",
    "Trusts the reference model (formulas of the statement; cross-checked mapper vs cache) and the generator's domain (non-empty names, numbers < 2^32-1). Buffers 8-byte aligned.", "DESIGN.md §4 C01"),
  "C02": ("exploration", "property-based differential testing (proptest): mapper vs cache over the complete enumerated query universe of generated, token-mutated, tall, scale and corpus mappings; all mapper constructors; model-based history stage (random repeated query sequences on long-lived objects vs fresh ones); big traces (deep chains, >16 KiB, parameter frames)",
    "Generated-input search with a differential oracle: every query of the finite universe derived from each mapping must be answered identically by ProguardMapper and by ProguardCache::parse(write(..)), and by the mapper with and without parameter index.",
    "Both implementations could be wrong in the same way (C01/C03/C04 add an independent model). Buffers 8-byte aligned.", "DESIGN.md §4 C02"),
- "C03": ("exploration", "property-based testing (proptest) against a by-params reference model from the AST (and corpus), for every params-capable mapper constructor and the cache, through remap_frame and through the typed trace API; scale mappings (65537 entries per method, repeats far back in a bucket); range aliases modulo 2^32",
+ "C03": ("exploration", "property-based testing (proptest) against a by-params reference model from the AST (and corpus), for every params-capable mapper constructor and the cache, through remap_frame (every iterator adaptor) and through the typed trace API; scale mappings (65537 entries per method, repeats far back in a bucket); range aliases modulo 2^32",
    "Generated-input search over mappings rich in overloads, duplicates and inline groups; every (class, method, params) triple of the universe is compared with the model.",
    "The 'inlined callee' rule is taken from the statement (next record is a method with the identical usable range); header/field records never split such a pair by construction.", "DESIGN.md §4 C03"),
  "C04": ("exploration", "property-based testing (proptest) against a lookup reference model plus a cross-API invariant; adversarially similar names (incl. Unicode spaces, UTF-8 vs UTF-16 order); every mapper constructor; scale mappings (thousands of methods / classes); corpus",
    "Generated-input search incl. a wide profile (hundreds of similar class names): every present name, near-miss and sort neighbour is looked up in mapper and cache and compared with the model; remap_method answers are cross-checked against by-line frames.",
    "Near-miss set is finite (edit distance 1, '$'/'.', case, sort neighbours).", "DESIGN.md §4 C04"),
- "C05": ("exploration", "property-based testing (proptest) print->parse with expected records from the AST (alone, embedded, and through iterator adaptors nth/skip), single-violation mutants, bounded-exhaustive slot product and token strings against a strict recogniser, corpus lines, long runs of malformed lines, 65536-byte tokens",
+ "C05": ("exploration", "property-based testing (proptest) print->parse with expected records from the AST (alone, embedded, and through iterator adaptors nth/skip), single-violation mutants, bounded-exhaustive slot product and token strings against a strict recogniser, corpus lines, long runs of malformed lines, 65536-byte tokens, lines of 1 MiB .. 48 MiB (exact record / error carrying the whole line)",
    "Generated and bounded-exhaustive search over the line grammar: well-formed lines must parse to exactly their printed parts (alone and embedded), lines with exactly one documented violation must be errors carrying the line.",
    "The recogniser is narrower than the parser; unclassified lines are only checked for totality. exhaustive=true refers to the named finite sub-spaces only.", "DESIGN.md §4 C05"),
- "C06": ("exploration", "property-based testing and bounded-exhaustive enumeration with a metamorphic resynchronisation relation (records(A+nl+B) = records(A)++records(B)), totality invariants, and agreement of every iterator adaptor and of section()/clone() with plain iteration; libFuzzer stage in thorough",
+ "C06": ("exploration", "property-based testing and bounded-exhaustive enumeration with a metamorphic resynchronisation relation (records(A+nl+B) = records(A)++records(B)), totality invariants, and agreement of every iterator adaptor and of section()/clone() with plain iteration; inputs beyond 2^31 and 2^32 bytes; libFuzzer stage in thorough",
    "Generated-input search over byte strings, token soups, hostile mutants, corpus cuts and all short strings over a 9-symbol alphabet; thorough adds a coverage-guided libFuzzer campaign with the same oracle in-target.",
    "Phantom error items for blank trailing input are normalised away (documented in DESIGN.md).", "DESIGN.md §4 C06"),
  "C07": ("exploration", "property-based testing (proptest): per-line model composed from the public single-line API, reference-model expectation for AST-kinded texts, conservation and identity relations, mapper==cache",
@@ -32,22 +32,22 @@ CHECKS = {
  "C09": ("exploration", "property-based testing (proptest) with an independent layout decoder and AST-derived expected records; corpus files",
    "Generated-input search: every written file is decoded by a decoder written only from the format documentation and checked for all layout/ordering invariants, equality with the records derived from the AST, and the library's self-test.",
    "Decoder hard-codes format version 1 as documented in src/cache/mod.rs.", "DESIGN.md §4 C09"),
- "C10": ("exploration", "property-based differential testing (proptest) of two releases: frozen pinned 5.5.0 copy vs working tree, both writers x both readers on the same bytes",
+ "C10": ("exploration", "property-based differential testing (proptest) of two releases: frozen pinned 5.5.0 copy vs working tree, both writers x both readers on the same bytes, incl. odd and zero-length names",
    "Generated-input search over mappings and corpus files; a reader either rejects with WrongVersion or answers the whole decoding universe exactly like the other release's reader on the same bytes.",
    "'Every release' = two releases (pinned snapshot in /verif/pinned, current tree).", "DESIGN.md §4 C10"),
- "C11": ("fault_enumeration", "fault enumeration over generated caches: every strict prefix and every single-field header edit, expected error kind from the independent layout model",
+ "C11": ("fault_enumeration", "fault enumeration over generated caches: every strict prefix (also at a 4-aligned address), every single-field header edit and bit flip, magic/version edits at a 4-aligned address and on buffers cut right behind the header, foreign headers; expected error kind from the independent layout model",
    "Per generated cache the fault space (all prefixes, all listed header edits) is enumerated completely; files are generated with proptest.",
    "Complete per file, not over all files. Buffers 8-byte aligned.", "DESIGN.md §4 C11"),
- "C12": ("exploration", "property-based testing (proptest) with structured corruption operators on valid caches (small, tall, and 4096+-class caches), panic/overflow detection and pointer-range oracle; deep queries in a child process; libFuzzer stage in thorough",
+ "C12": ("exploration", "property-based testing (proptest) with structured corruption operators on valid caches (small, tall, and 4096+-class caches), panic/overflow detection, pointer-range oracle and a placement-independence relation (same buffer surrounded by different bytes => same answers); deep queries in a child process; libFuzzer stage in thorough",
    "Generated-input search over corrupted buffers x the query universe; thorough adds exhaustive (field,value) edits of small files and a coverage-guided libFuzzer campaign with the oracle in-target.",
    "Overflow is observable because the harness builds the crate with overflow-checks. test()/display()/debug_* helpers excluded.", "DESIGN.md §4 C12"),
  "C13": ("exploration", "property-based testing (proptest) / fuzzing of the whole pipeline with hostile numbers, mutants, raw bytes, scale mappings and every mapper constructor; no-panic/no-error oracle; deep inputs answered in a child process so that a stack overflow (an abort, not a panic) is attributed; libFuzzer stage in thorough",
    "Generated-input search; thorough adds a coverage-guided libFuzzer campaign over the same pipeline.",
    "Overflow observable through overflow-checks in the harness profile.", "DESIGN.md §4 C13"),
- "C14": ("exploration", "property-based testing (proptest) with byte-equality oracle across repeated writes, 8 threads, 8 separately started processes, 8 buffer alignments, after failed writes on the same thread, and through section() in both orders; length law from the layout model",
+ "C14": ("exploration", "property-based testing (proptest) with byte-equality oracle across repeated writes, 8 threads, 8 separately started processes, 8 buffer alignments, after failed writes on the same thread, and through section() in both orders; children under varied environments and rotated write histories; degenerate (zero-length-name) and hostile-mutant mappings; length law from the layout model",
    "Generated-input search over mappings and corpus files; all serialisations of the same bytes must be identical across hash seeds, threads and processes.",
    "One platform only.", "DESIGN.md §4 C14"),
- "C15": ("fault_enumeration", "fault enumeration with scripted std::io::Write sinks (chunk limits, short-once, fail, interrupt at every call index; short+fail, short+interrupt; write_vectored sinks; fixed-capacity sinks returning Ok(0); one-shot errors of seven kinds) over generated and sized mappings",
+ "C15": ("fault_enumeration", "fault enumeration with scripted std::io::Write sinks (chunk limits, short-once, fail, interrupt at every call index; short+fail, short+interrupt; write_vectored sinks; fixed-capacity sinks returning Ok(0); one-shot errors of seven kinds; interruption bursts of 2..64 at every call index, n interruptions before every call, interruption directly followed by a failure) over generated and sized mappings",
    "Per generated mapping the sink fault space is enumerated (every call index; k=1..16); oracle: canonical bytes on success, Err on sink failure, accepted bytes always a prefix.",
    "Sinks obey the Write contract. Complete per mapping for call indices; shortened lengths sampled for large writes.", "DESIGN.md §4 C15"),
  "C16": ("exploration", "property-based testing (proptest) from descriptor ASTs, bounded-exhaustive small descriptors, precise unterminated variants, single-edit corruptions, mapper==cache",
@@ -56,13 +56,13 @@ CHECKS = {
  "C17": ("exploration", "property-based round-trip testing (proptest): try_parse(print(T)) == T and print idempotence",
    "Generated-input search over typed traces, frames and throwables in the statement's domain.",
    "Domain predicate taken from the statement.", "DESIGN.md §4 C17"),
- "C18": ("exploration", "property-based testing (proptest) against an independent SHA-1/UUIDv5 implementation; LF/CRLF metamorphic check; cross-process equality; stateful API sequences (in-place and permutation edits of one buffer, section()/clone() after uuid())",
+ "C18": ("exploration", "property-based testing (proptest) against an independent SHA-1/UUIDv5 implementation; LF/CRLF metamorphic check; cross-process equality; stateful API sequences (in-place and permutation edits of one buffer, section()/clone() after uuid(), also on 17..130 MiB buffers incl. a new buffer at the address of a freed one); children under varied environments",
    "Generated-input search over byte strings, mappings and corpus files; ids compared with an independent computation self-tested against published vectors.",
    "SHA-1 model verified against FIPS 180 vectors and the repository's five literal ids.", "DESIGN.md §4 C18"),
- "C19": ("exploration", "property-based testing (proptest) with truth computed from the generated line list and the fold over the public record iterator; fold-only stage for mid-line records and grey-zone values; evidence behind 65536 lines / 65 MiB; section() after the parent was queried",
+ "C19": ("exploration", "property-based testing (proptest) with truth computed from the generated line list and the fold over the public record iterator; fold-only stage for mid-line records and grey-zone values; evidence behind 65536 lines / 65 MiB; metadata headers 17 / 33 MiB apart; section() after the parent was queried",
    "Generated-input search over files whose deciding record is placed adversarially (after 49/50/51/1000/10000 negatives, last line without terminator).",
    "min_api values with a leading '+' are not generated.", "DESIGN.md §4 C19"),
- "C20": ("exploration", "compile-time Send+Sync assertions (type list enumerated) plus randomized multi-thread stress on cold instances compared with a separately computed single-threaded transcript; shared ProguardMapping (incl. sections) and shared result objects; scale mappings under stress",
+ "C20": ("exploration", "compile-time Send+Sync assertions (type list enumerated) plus randomized multi-thread stress on cold instances compared with a separately computed single-threaded transcript; lockstep first use (all threads issue the same query at the same moment on a fresh instance); shared ProguardMapping (incl. sections) and shared result objects; scale mappings under stress; 6.4e7 distinct keys on one shared mapper + cache against a descriptor model",
    "Static part decides the realistic regressions (non-Send/Sync fields fail to compile); dynamic part is stress exploration with real threads over generated mappings.",
    "The harness does not own the schedule; interleavings are sampled, not enumerated.", "DESIGN.md §4 C20"),
 }
@@ -104,7 +104,7 @@ def main():
         ],
         "checks": checks,
         "not_applicable": [{"property_id": p, "reason": PENDING_REASON} for p in ALL if p not in CHECKS],
-        "notes": "All checks rebuild the harness against /repo's working tree (cargo path dependency) before running. Exit 2 = inconclusive (build/infrastructure), never a verdict. Genuine defects found and repaired are listed in KNOWN_FINDINGS.txt as fixed: lines.",
+        "notes": "All checks rebuild the harness against /repo's working tree (cargo path dependency) before running, in two build profiles: release + overflow checks + debug assertions (full case counts) and plain release without either (a quarter of the case counts) - a violation in either pass is a violation; replays ending in .plain.json are replayed with the second build. A watchdog and a memory ceiling turn hangs / runaway allocations into exit 2. Exit 2 = inconclusive (build/infrastructure), never a verdict. Genuine defects found and repaired are listed in KNOWN_FINDINGS.txt as fixed: lines.",
     }
     path = os.path.join(HERE, "MANIFEST.json")
     json.dump(manifest, open(path, "w"), indent=1)
